@@ -361,10 +361,9 @@ func (m *CTLabel) MarshalBinary() (data []byte, err error) {
 func (m *CTLabel) UnmarshalBinary(data []byte) error {
 	m.data = [16]byte{}
 	if len(data) < len(m.data) {
-		copy(m.data[:], data)
-	} else {
-		copy(m.data[:], data[:16])
+		return errors.New("the []byte is too short to unmarshal a full CTLabel")
 	}
+	copy(m.data[:], data[:16])
 	return nil
 }
 
